@@ -11,7 +11,7 @@ META = {
     "rule": "N1 every finish_node(NAME|NAME_REF|TYPE_NAME|LABEL) closes a mark under which at most one token and no child "
             "node was recorded, and the tree builder attaches pending trivia before such a node starts; N2 every TextEdit "
             "rename builds deletes a range delivered by the usage search and inserts the new_name parameter verbatim; N3 "
-            "the alias refusal in find_def dominates both entry points; R1 (shared with C06) one classifier. One obligation per site.",
+            "the alias refusal in find_def dominates both entry points; R1 (shared with C06) one classifier. One obligation per site. N4 the three label classifiers agree; N5 qualified values; N6 the name an import is registered under and the name it is looked up by read the same fields of the import record; N7 = C05/S10 module qualifiers.",
     "explanation": "The usage search reports name.syntax().text_range(); N1 (decided by engine P for every token sequence) is "
                    "what makes such a range cover exactly one identifier token. N2/N3 are def-use and dominance facts on the MIR "
                    "of ide::ide::rename. Decides token-exactness and gating, not the behaviour.",
@@ -150,6 +150,36 @@ def run(F, res, tier):
     label_classifiers_agree(F, res)
     from rules import c05 as _c05
     _c05.qualified_value_kinds(F, res, rule="N5")
+    import_names_agree(F, res)
+    _c05.module_qualifier_contexts(F, res, rule="N7")
+
+
+def import_names_agree(F, res, rule="N6"):
+    """the name an `import a/b as c` is registered under in the module scope and the name Import::imported_from_module looks it up
+    by are computed from the same fields of the import record"""
+    from lib import facts as FA
+    reg = F.fn("ide::def::scope::module_scope_with_map_query")
+    v = FA.with_helpers(F, reg) if hasattr(FA, "with_helpers") else reg
+    d = FL.Defs(v)
+    keys = []
+    for b, t in v.calls():
+        if FL.short(callee(t) or "").endswith("::insert") and len(t["args"]) == 3:
+            o = d.origin_op(t["args"][0])
+            txt = str(o)
+            if '"n": "modules"' in __import__("json").dumps(o) or "'n': 'modules'" in txt:
+                keys.append((b, t))
+    got_reg = set()
+    for b, t in keys:
+        got_reg |= FL.fields_feeding(F, v, d, t["args"][1], "ModuleImport")
+    lk = F.fn("ide::def::hir::Import::import_from_module_name")
+    got_lk = FL.fields_feeding(F, lk, FL.Defs(lk), {"cp": {"l": 0, "p": []}}, "ModuleImport")
+    user = F.fn("ide::def::hir::Import::imported_from_module")
+    uses = any(callee(t) == lk.path for b, t in user.calls()) and any((callee(t) or "").endswith("Resolver::resolve_module") for b, t in user.calls())
+    res.ob(rule, "import-name/registered-as-looked-up", "an imported module is looked up (Import::imported_from_module -> resolve_module) under the name "
+           "it is registered with in the module scope: both names are computed from the same fields of the import record (alias, else last "
+           "path segment) - otherwise `import a/b.{x}` does not resolve and rename of x leaves the import line behind",
+           bool(keys) and bool(got_reg) and got_reg == got_lk and uses, where=lk.loc(),
+           how="registered from %s, looked up from %s" % (sorted(got_reg), sorted(got_lk)))
 
 
 def thorough(F, res):
